@@ -535,27 +535,16 @@ def rule_r6(prog, res) -> None:
     if dm is None:
         raise AnalysisError("C16.R6: the HealPix draw method (pix2ang) was not found")
     res.touch(dm)
-    fn = dm.node
-    resolver = lambda nm: (lambda vs: vs[0] if len(vs) == 1 else None)([v for v in all_def_values(fn, nm) if v is not None])  # noqa: E731
-    p2a = next(c for c in calls_in(dm) if (dotted(c.func) or "").endswith("pix2ang"))
+    # on the symbolic store: locals, module-level constants and private helpers are substituted
+    evs = [ev for p_ in symx.explore(prog, dm, inline=symx.inline_private_helpers(prog)) for ev in p_.calls("pix2ang")]
+    if not evs:
+        raise AnalysisError("C16.R6: no explored path of the HealPix draw method reaches pix2ang")
+    p2a = evs[0].expr
     ipix = kwarg(p2a, "ipix") or (p2a.args[1] if len(p2a.args) > 1 else None)
     nside = kwarg(p2a, "nside") or (p2a.args[0] if p2a.args else None)
     nest = kwarg(p2a, "nest")
     probs = []
-    # the refinement: ipix = parent * scale + integers(0, scale)
-    def expand(e, depth=0):
-        import copy as _cp
-
-        class T(ast.NodeTransformer):
-            def visit_Name(self, x):
-                v = resolver(x.id) if depth < 6 else None
-                if isinstance(x.ctx, ast.Load) and v is not None and not (isinstance(v, ast.Call) and (dotted(v.func) or "").split(".")[-1] in ("choice", "nside2order")) and not isinstance(v, ast.Constant):
-                    return expand(v, depth + 1)
-                return x
-
-        return T().visit(_cp.deepcopy(e))
-
-    full = expand(ipix) if ipix is not None else None
+    full = symx.strip_wrappers(ipix) if ipix is not None else None
     draws = [y for y in ast.walk(full) if isinstance(y, ast.Call) and isinstance(y.func, ast.Attribute) and y.func.attr == "integers"] if full is not None else []
     order_scale = None
     if full is None or len(draws) != 1 or not (isinstance(full, ast.BinOp) and isinstance(full.op, ast.Add)):
@@ -573,25 +562,31 @@ def rule_r6(prog, res) -> None:
         if not (isinstance(par, ast.BinOp) and isinstance(par.op, ast.Mult)):
             probs.append(f"the parent pixel is refined as `{unparse(par)[:50]}`, not multiplied by the number of sub-pixels")
         elif hi is not None:
-            sc = par.right if any(isinstance(y, ast.Call) and isinstance(y.func, ast.Attribute) and y.func.attr == "choice" for y in ast.walk(par.left)) or isinstance(par.left, ast.Name) else par.left
+            sc = par.right if any(isinstance(y, ast.Call) and isinstance(y.func, ast.Attribute) and y.func.attr == "choice" for y in ast.walk(par.left)) else par.left
             if unparse(sc) != unparse(hi):
                 probs.append(f"the parent pixel is multiplied by `{unparse(sc)[:40]}` but the sub-pixel is drawn below `{unparse(hi)[:40]}`")
             order_scale = sc
     if order_scale is not None:
-        # scale = 4 ** (MAX - order)
+        # scale = 4 ** (M - order), nside asked = 2 ** M
         sc = order_scale
         if not (isinstance(sc, ast.BinOp) and isinstance(sc.op, ast.Pow) and isinstance(sc.left, ast.Constant) and sc.left.value == 4 and isinstance(sc.right, ast.BinOp) and isinstance(sc.right.op, ast.Sub)):
             probs.append(f"the number of sub-pixels is `{unparse(sc)[:50]}`, not 4 ** (finest order - order of the map)")
         else:
-            mx = sc.right.left
-            ns = expand(nside) if nside is not None else None
-            if not (isinstance(ns, ast.BinOp) and isinstance(ns.op, ast.Pow) and isinstance(ns.left, ast.Constant) and ns.left.value == 2 and unparse(ns.right) == unparse(mx)):
-                probs.append(f"pix2ang is asked at nside = `{unparse(ns)[:40] if ns is not None else None}`, not 2 ** (the finest order `{unparse(mx)}`)")
+            try:
+                M = ceval(sc.right.left, {})
+                N = ceval(nside, {}) if nside is not None else None
+            except Unknown:
+                M = N = None
+            if M is None or N is None:
+                if not (isinstance(nside, ast.BinOp) and isinstance(nside.op, ast.Pow) and isinstance(nside.left, ast.Constant) and nside.left.value == 2 and unparse(nside.right) == unparse(sc.right.left)):
+                    probs.append(f"pix2ang is asked at nside = `{unparse(nside)[:40] if nside is not None else None}`, not 2 ** (the finest order `{unparse(sc.right.left)}`)")
+            elif N != 2**M:
+                probs.append(f"pix2ang is asked at nside = {N}, not 2 ** {M} (the finest order of the refinement)")
     if not (isinstance(nest, ast.Constant) and nest.value is True):
         probs.append(f"pix2ang is asked with nest={unparse(nest) if nest is not None else 'False (default)'}: the refinement p * 4**k + r is only valid in the nested scheme")
     n += 1
     if probs:
-        res.violation("C16.R6", dm, p2a, "HealPix points are not drawn inside the selected pixels: " + "; ".join(probs), key_extra="healpix-subpixel")
+        res.violation("C16.R6", dm, evs[0].node, "HealPix points are not drawn inside the selected pixels: " + "; ".join(probs), key_extra="healpix-subpixel")
     else:
         res.ok("C16.R6", res.site(dm, "sub-pixels"), "parent * 4**(M - order) + integers(0, 4**(M - order)), read back at nside 2**M, nested")
     if n < 5:
